@@ -580,7 +580,7 @@ def _zero_when_p_le_o(s):
     return False
 
 
-@rule('NORM-NONNEG', ['C14'], configs=('def',), floor=3, thorough_configs=('std-noopt', 'nostd-opt', 'nostd'))
+@rule('NORM-NONNEG', ['C14'], configs=('def',), floor={'def': 3, 'std-noopt': 3, 'nostd-opt': 1, 'nostd': 1}, thorough_configs=('std-noopt', 'nostd-opt', 'nostd'))
 def norm_nonneg(ctx):
     """All position-normalisation kernels clamp at zero: for an entry p >= 0 and offset o >= 0 the
     stored value is >= 0 and is 0 whenever p <= o (the scalar, AVX2, SSE4.1 and NEON variants must
